@@ -20,7 +20,7 @@ PROP = {'streams': [('c03', 250, 20000)],
               'strict_validation_sound_static',
               'impossible_policy_never_satisfied_static',
               'strict_implies_permissive_strict',
-              "strict_implies_permissive_strict'",
+              'strict_implies_permissive_strict_sub',
               'strict_accepted_policy_permissive_accepted',
               'strict_implies_permissive_partial',
               'strict_accepted_implies_permissive_accepted',
